@@ -51,11 +51,12 @@ from odxmodel import emit, emit_compare as ec, refcompare as ref
 PROPERTY = "C18"
 LEVEL = "exploration"
 
-QUICK_DBS = ["single", "flat", "tree", "shared", "somersault"]
+QUICK_DBS = ["names", "single", "flat", "tree", "shared", "somersault"]
 THOROUGH_DBS = QUICK_DBS + ["somersault_modified"]
 CATS = ["new", "deleted", "renamed", "changed"]
 KEYWORDS = {"byte-position": ["byte"], "bit-length": ["bit"], "coded-value": ["value"], "semantic": ["semantic"],
-            "data-type": ["type", "dop"], "linked-dop": ["dop"]}
+            "data-type": ["type", "dop"], "linked-dop": ["dop"],
+            "dop-bit-length": ["bit", "dop"], "dop-data-type": ["type", "dop"], "dop-compu-category": ["dop"]}
 PARAM_RE = re.compile(r"(request|positive response|negative response) parameter '([^']*)'")
 
 _counter = itertools.count()
@@ -891,6 +892,9 @@ def all_cases(db_ids: List[str], deep: bool) -> List[Dict[str, Any]]:
         for e in ec.PARAM_EDITS:
             for m, i in params:
                 cases.append({"db": db_id, "edit": e, "target": [m, i], "deep": deep})
+        for e in ec.DOP_EDITS:
+            for d in ec.dop_targets(files):
+                cases.append({"db": db_id, "edit": e, "target": [d], "deep": deep})
     return cases
 
 
@@ -900,7 +904,7 @@ def run(ctx: Ctx) -> None:
     clis = cli_cases(db_ids)
     seqs = seq_cases(db_ids)
     per_db = Counter(c["db"] for c in cases)
-    ctx.bounds = {"databases": db_ids, "service_edits": ec.SERVICE_EDITS, "param_edits": ec.PARAM_EDITS,
+    ctx.bounds = {"databases": db_ids, "service_edits": ec.SERVICE_EDITS, "param_edits": ec.PARAM_EDITS, "dop_edits_in_place": ec.DOP_EDITS,
                   "roles_of_the_edited_input": ["edited-new", "edited-old"], "cases_per_database": dict(per_db),
                   "edits_per_case": 1,
                   "layer_orders_for_the_overview": "database order, reverse, all ordered pairs; base databases also single layers and all "
@@ -929,7 +933,7 @@ def run(ctx: Ctx) -> None:
               [seqs[i:i + 14] for i in range(0, len(seqs), 14)])
     pmap(ctx, unit, chunks)
     c = ctx.counts
-    for e in ec.SERVICE_EDITS + ec.PARAM_EDITS:
+    for e in ec.SERVICE_EDITS + ec.PARAM_EDITS + ec.DOP_EDITS:
         ctx.guard(f"edit kind {e} applied at least once", c.get("applied_" + e, 0) > 0)
     ctx.guard("cases expecting a report and cases expecting silence both seen",
               c.get("cases_expecting_a_report", 0) > 0 and c.get("cases_expecting_silence", 0) > 0)
